@@ -174,7 +174,7 @@ func c19Parse(c *Ctx) {
 				continue
 			}
 			t := bb.Of(e.Results[0], e.Instr)
-			bd, ok := ana.Match("call<builtin.append>(slice(obj(alloc<[1]byte>, store(iaddr(self, 0), $v)), 0, none), slice(faddr<hash>(obj(alloc<*>, store(self, p0))), 0, none))", t)
+			bd, ok := ana.Match("concat(slice(obj(alloc<[1]byte>, store(iaddr(self, 0), $v)), 0, none), slice(faddr<hash>(obj(alloc<*>, store(self, p0))), 0, none))", t)
 			v, _ := bd["$v"].Int()
 			r.Check(ok && v == ty.ver, key+".bytes", c.ipos(e.Instr), "Bytes() = [%#x] ‖ hash[:] (whole array): %s", ty.ver, short(t.String(), 160))
 		}
@@ -373,7 +373,7 @@ func c19Migration(c *Ctx) {
 			}
 			t := eb.Of(e.Results[0], e.Instr)
 			a := "slice(obj(alloc<[32]byte>, store(self, p0)), 0, none)"
-			want := `bin<+>(bin<+>("TRANSFER", call<github.com/iotaledger/iota.go/encoding/b1t6.EncodeToTrytes>(call<builtin.append>(` + a + `, slice(obj(alloc<[32]byte>, store(self, call<golang.org/x/crypto/blake2b.Sum256>(` + a + `))), 0, 4)))), "9")`
+			want := `bin<+>(bin<+>("TRANSFER", call<github.com/iotaledger/iota.go/encoding/b1t6.EncodeToTrytes>(concat(` + a + `, slice(obj(alloc<[32]byte>, store(self, call<golang.org/x/crypto/blake2b.Sum256>(` + a + `))), 0, 4)))), "9")`
 			_, ok := ana.Match(want, t)
 			r.Check(ok, "C19.migration-layout.encode", c.ipos(e.Instr), "Encode = \"TRANSFER\" ‖ b1t6(addr ‖ blake2b256(addr)[0:4]) ‖ \"9\": %s", ana.Explain(want, t))
 		}
